@@ -20,7 +20,12 @@ import (
 	"chainsim/chain"
 )
 
-const verifRoot = "/verif"
+var verifRoot = func() string {
+	if r := os.Getenv("VERIF_ROOT"); r != "" {
+		return r
+	}
+	return "/verif"
+}()
 
 type runRec struct {
 	K        int            `json:"k"`
